@@ -245,11 +245,12 @@ theorem cliRecv2_ok (env : Env) (s s' : AuthData) :
 
 def TimeValid (now maxAge : Int) (c : Claims) : Prop :=
   (match c.exp with | .bad => False | .num e => now < e | .absent => True) ∧
-  (match c.iat with | .bad => False | .num i => ¬ (maxAge > 0 ∧ i < now - maxAge) | .absent => True)
+  (match c.iat with | .bad => False | .num i => ¬ (maxAge > 0 ∧ i < now - maxAge) | .absent => True) ∧
+  (match c.nbf with | .bad => False | .num n => n ≤ now | .absent => True)
 
 theorem checkTiming_ok (now ma : Int) (c : Claims) : checkTiming now ma c = .ok () ↔ TimeValid now ma c := by
-  unfold checkTiming checkTiming.checkIat TimeValid
-  cases c.exp <;> cases c.iat <;> simp only [] <;> (try split) <;> (try split) <;> simp <;> omega
+  unfold checkTiming checkTiming.checkIat checkTiming.checkNbf TimeValid
+  cases c.exp <;> cases c.iat <;> cases c.nbf <;> simp only [] <;> (try split) <;> (try split) <;> (try split) <;> simp <;> omega
 
 def ValidToken (P : SrvCfg) (env : Env) (now : Int) (tok key : Bytes) (c : Claims) : Prop :=
   ∃ h p kidv, splitDots tok = [h, p] ∧ env.hdr h = .ok kidv ∧ kidv ≠ .nonStr ∧
